@@ -52,7 +52,7 @@ impl Expect {
     }
 }
 
-/// The oracle for one complete execution (with at most one injected fault).
+/// The oracle for one complete execution (any number of injected faults: all but the last must be survivable interruptions).
 pub fn check(rep: &Report, label: &str, sub: &Subject, src: &[u8], menu: Menu, expect: &Expect, env: &Env, res: &Res, twin_runs: &AtomicU64) {
     let mk = |what: &str| Case::new(sub, src, menu, env).json(json!({"what": what}));
     let sched = describe(env);
@@ -60,63 +60,58 @@ pub fn check(rep: &Report, label: &str, sub: &Subject, src: &[u8], menu: Menu, e
         rep.violation(&format!("{}/panic", label), mk("panic"), format!("panic under schedule [{}]: {}", sched, m));
         return;
     }
-    match env.first_fault {
-        None => {
-            // only short counts: must succeed with the complete, correct output
-            match res {
-                Res::Ok(_) => {
-                    if let Err(e) = expect.complete(&env.sink) {
-                        rep.violation(&format!("{}/faultfree-output", label), mk("faultfree-output"), format!("fault-free schedule [{}]: {}", sched, e));
-                    }
+    // all injected faults of this execution, in call order
+    let faults: Vec<(usize, PKind, Ans)> = env.points.iter().enumerate().filter(|(_, p)| p.alts[p.chosen].1 == Class::Fault).map(|(i, p)| (i, p.kind, p.alts[p.chosen].0)).collect();
+    if faults.is_empty() {
+        // only short counts: must succeed with the complete, correct output
+        match res {
+            Res::Ok(_) => {
+                if let Err(e) = expect.complete(&env.sink) {
+                    rep.violation(&format!("{}/faultfree-output", label), mk("faultfree-output"), format!("fault-free schedule [{}]: {}", sched, e));
                 }
-                _ => rep.violation(&format!("{}/faultfree-error", label), mk("faultfree-error"), format!("fault-free schedule [{}] returned {}", sched, res.brief())),
+            }
+            _ => rep.violation(&format!("{}/faultfree-error", label), mk("faultfree-error"), format!("fault-free schedule [{}] returned {}", sched, res.brief())),
+        }
+        return;
+    }
+    // every fault but the last was survived, so it must have been a transient interruption: after a hard fault the
+    // operation has to return (a later call would mean the failure was swallowed)
+    for &(_, kind, ans) in &faults[..faults.len() - 1] {
+        if ans != Ans::Intr {
+            rep.violation(&format!("{}/fault-swallowed-{:?}", label, kind), mk("swallowed"), format!("{:?} failure ({:?}) in [{}]: the operation went on to make further calls", kind, ans, sched));
+            return;
+        }
+    }
+    let (i, kind, ans) = *faults.last().unwrap();
+    let want_kind = if kind == PKind::Read { ErrKind::IORead } else { ErrKind::IOWrite };
+    match res {
+        Res::Ok(_) => {
+            if ans == Ans::Intr {
+                // transient interruption(s) retried: everything must have been written
+                if let Err(e) = expect.complete(&env.sink) {
+                    rep.violation(&format!("{}/intr-retried-incomplete", label), mk("intr"), format!("Interrupted at [{}] retried, Ok returned, but {}", sched, e));
+                }
+            } else {
+                rep.violation(&format!("{}/fault-swallowed-{:?}", label, kind), mk("swallowed"), format!("{:?} failure ({:?}) at [{}] but the operation returned Ok", kind, ans, sched));
             }
         }
-        Some((kind, ans)) => {
-            let want_kind = if kind == PKind::Read { ErrKind::IORead } else { ErrKind::IOWrite };
-            match res {
-                Res::Ok(_) => {
-                    if ans == Ans::Intr {
-                        // transient interruption retried: everything must have been written
-                        if let Err(e) = expect.complete(&env.sink) {
-                            rep.violation(&format!("{}/intr-retried-incomplete", label), mk("intr"), format!("Interrupted at [{}] retried, Ok returned, but {}", sched, e));
-                        }
-                    } else {
-                        rep.violation(
-                            &format!("{}/fault-swallowed-{:?}", label, kind),
-                            mk("swallowed"),
-                            format!("{:?} failure ({:?}) at [{}] but the operation returned Ok", kind, ans, sched),
-                        );
-                    }
-                }
-                Res::Err(k, m) => {
-                    if *k != want_kind {
-                        rep.violation(
-                            &format!("{}/wrong-side-{:?}", label, kind),
-                            mk("wrong-side"),
-                            format!("{:?} failure at [{}] reported as {:?} ({}), expected {:?}", kind, sched, k, m, want_kind),
-                        );
-                    }
-                    // written-so-far is a prefix of what the continuation (fault replaced by the default answer) writes
-                    let i = env.points.iter().position(|p| p.alts[p.chosen].1 == Class::Fault).unwrap();
-                    let mut twin: Vec<u16> = env.points[..i].iter().map(|p| p.chosen as u16).collect();
-                    twin.push(0);
-                    let s2 = sub.clone();
-                    let (tenv, tres) = run_tape(src, menu, &twin, &move |e| run_env(&s2, e));
-                    twin_runs.fetch_add(1, Ordering::Relaxed);
-                    if !tres.is_ok() {
-                        // reported by the twin's own visit as faultfree-error
-                    } else if !tenv.sink.starts_with(&env.sink) {
-                        rep.violation(
-                            &format!("{}/not-a-prefix", label),
-                            mk("prefix"),
-                            format!("after the failure at [{}] the {} bytes written are not a prefix of the fault-free continuation's output", sched, env.sink.len()),
-                        );
-                    }
-                }
-                Res::Panic(_) => unreachable!(),
+        Res::Err(k, m) => {
+            if *k != want_kind {
+                rep.violation(&format!("{}/wrong-side-{:?}", label, kind), mk("wrong-side"), format!("{:?} failure at [{}] reported as {:?} ({}), expected {:?}", kind, sched, k, m, want_kind));
+            }
+            // written-so-far is a prefix of what the continuation (the failing answer replaced by the default one) writes
+            let mut twin: Vec<u16> = env.points[..i].iter().map(|p| p.chosen as u16).collect();
+            twin.push(0);
+            let s2 = sub.clone();
+            let (tenv, tres) = run_tape(src, menu, &twin, &move |e| run_env(&s2, e));
+            twin_runs.fetch_add(1, Ordering::Relaxed);
+            if !tres.is_ok() {
+                // reported by the twin's own visit as faultfree-error
+            } else if !tenv.sink.starts_with(&env.sink) {
+                rep.violation(&format!("{}/not-a-prefix", label), mk("prefix"), format!("after the failure at [{}] the {} bytes written are not a prefix of the fault-free continuation's output", sched, env.sink.len()));
             }
         }
+        Res::Panic(_) => unreachable!(),
     }
 }
 
@@ -136,17 +131,17 @@ pub fn party_fixtures(seed: u64) -> (Party, Party) {
 pub fn run(rep: &Report) {
     let seed = rep.seed;
     rep.set_rule("E-ENV fault enumeration: for every call index k of every explored run, each fault of the menu (read: Interrupted, Other; write: Ok(0), Interrupted, Other; flush: Interrupted, Other) is injected at k (fault budget 1) on top of short-read/short-write schedules within the stated budget; every execution is checked against the oracle, failing ones are re-run with the fault replaced by the default answer (prefix clause). distinct non-trivial = distinct (subject, input, tape) executions that contain at least one non-default answer");
-    rep.assume("at most one hard fault per execution (after a hard fault the operation has returned); Interrupted is never injected twice in a row at one position");
+    rep.assume("fault budget 1 per execution (2 on the smallest scopes in the thorough tier: an interruption followed by another fault); after a hard fault the operation has returned; Interrupted is never injected twice in a row at one position");
     rep.assume("data values from seed-derived alphabets");
     let key = derive32(seed, "c10-key");
     let mut items: Vec<Item> = vec![];
-    let css: Vec<u32> = rep.tier.pick(vec![1, 2, 3], vec![1, 2, 3, 4]);
-    let shorts = rep.tier.pick(1, 2);
+    let css: Vec<u32> = rep.tier.pick(vec![1, 2, 3], vec![1, 2, 3, 4, 5]);
+    let shorts = rep.tier.pick(1, 3);
     for &cs in &css {
         for aad in [vec![], r::PASS_MAGIC.to_vec()] {
             for l in 0..=(2 * cs as usize + 1) {
                 let p = plaintext(seed ^ 0x10, l);
-                let mut b = Budget::new(2, 2, 1);
+                let mut b = if rep.tier == Tier::Thorough { Budget::new(3, 3, 1) } else { Budget::new(2, 2, 1) };
                 b.shorts_total = shorts;
                 items.push(Item {
                     label: "C10/tiny-enc".into(),
@@ -186,6 +181,37 @@ pub fn run(rep: &Report) {
             }
         }
     }
+    // thorough: two faults per execution (a retried interruption followed by another fault, two interruptions at
+    // different calls) on the smallest scopes
+    if rep.tier == Tier::Thorough {
+        for &cs in &[1u32, 2] {
+            for l in 0..=(2 * cs as usize + 1) {
+                let p = plaintext(seed ^ 0x14, l);
+                let mut b = Budget::new(1, 1, 2);
+                b.shorts_total = 1;
+                items.push(Item {
+                    label: "C10/tiny-enc-2faults".into(),
+                    sub: Subject::TinyEnc { key: hx(&key), aad: String::new(), cs },
+                    src: p.clone(),
+                    expect: Expect::TinyStream { key, aad: vec![], cs, plain: p.clone() },
+                    budget: b,
+                    read_mode: ReadMode::Bounded,
+                });
+                let mut c = vec![];
+                let mut rem = l;
+                while rem > 0 {
+                    let n = rem.min(cs as usize);
+                    c.push(n);
+                    rem -= n;
+                }
+                if c.is_empty() {
+                    c.push(0);
+                }
+                let ct = r::write_chunks(&key, &[], &p, &c);
+                items.push(Item { label: "C10/tiny-dec-2faults".into(), sub: Subject::TinyDec { key: hx(&key), aad: String::new(), cs }, src: ct, expect: Expect::Bytes(p.clone()), budget: b, read_mode: ReadMode::Bounded });
+            }
+        }
+    }
     // fault-free, deeper short-count budgets
     for &cs in &[2u32, 3] {
         for l in [0usize, 1, cs as usize, 2 * cs as usize + 1] {
@@ -204,7 +230,7 @@ pub fn run(rep: &Report) {
     let ids = idents(seed);
     let (s, rc) = (&ids[0], &ids[2]);
     let csz = 65536usize;
-    let prod_shorts = rep.tier.pick(0, 1);
+    let prod_shorts = rep.tier.pick(0, 2);
     for l in [0usize, csz, csz + 1] {
         let p = plaintext(seed ^ 0x12, l);
         let e = derive32(seed, "c10-eph");
@@ -304,6 +330,7 @@ pub fn run(rep: &Report) {
     rep.sample(json!({"subject":"key_encrypt L=65537","tape":"flush#2 -> Err(Other)","expect":"Err(IOWrite); bytes written are a prefix of the fault-free continuation"}));
 
     cli_level(rep);
+    cli_partial_reads(rep);
     rep.set_exhaustive(true);
 }
 
@@ -413,6 +440,93 @@ fn cli_level(rep: &Report) {
     });
     rep.extra("cli_fault_cases", json!(n));
     rep.sample(json!({"cli":"kestrel password encrypt --env-pass plain.bin -o /dev/full","expect":"exit 1 with an Error: line"}));
+}
+
+/// Partial reads at process level: the input arrives on a stdin pipe in pieces (the first k bytes alone, for every k
+/// of a boundary set; and byte by byte for the first 200 bytes). The result must be exactly that of the whole-file run.
+fn cli_partial_reads(rep: &Report) {
+    let seed = rep.seed;
+    let (alice, bob) = party_fixtures(seed);
+    let kr = crate::fx::keyring(&[(&alice, true), (&bob, true)]);
+    let salt = derive32(seed, "c10-split-salt");
+    let pkey = r::pass_key(b"pw", &salt);
+    let mut jobs: Vec<(String, Vec<&'static str>, &'static str, Vec<u8>, Vec<u8>, Vec<usize>)> = vec![];
+    for n in rep.tier.pick(vec![1000usize], vec![0usize, 1, 1000, 65536, 70000]) {
+        let p = plaintext(seed ^ 0x15, n);
+        let ch: Vec<usize> = if n > 65536 { vec![65536, n - 65536] } else { vec![n] };
+        let kct = r::write_key_file(&alice.sk, &bob.pk, &derive32(seed, "c10-split-e"), &derive32(seed, "c10-split-p"), &p, &ch).unwrap();
+        let pct = r::write_pass_file_with_key(&pkey, &salt, &p, &ch);
+        for (name, args, pw, input, hlen) in [
+            ("encrypt", vec!["encrypt", "-t", "bob", "-f", "alice", "-k", "kr.txt", "--env-pass"], "alicepw", p.clone(), 0usize),
+            ("decrypt", vec!["decrypt", "-t", "bob", "-k", "kr.txt", "--env-pass"], "bobpw", kct.clone(), 132),
+            ("pass-encrypt", vec!["password", "encrypt", "--env-pass"], "pw", p.clone(), 0),
+            ("pass-decrypt", vec!["password", "decrypt", "--env-pass"], "pw", pct.clone(), 36),
+        ] {
+            let len = input.len();
+            let mut ks: Vec<usize> = vec![1, 2, 3, 4, 5, 7, 8, 31, 32, 33, 35, 36, 37, 64, 131, 132, 133];
+            for d in [0usize, 1, 7, 8, 9, 11, 12, 15, 16, 17, 31, 32, 33] {
+                ks.push(hlen + d);
+            }
+            if len > 65536 {
+                for base in [65536usize, hlen + 32 + 65536] {
+                    for d in [0usize, 1, 2, 8, 16, 17] {
+                        ks.push(base.saturating_sub(d));
+                        ks.push(base + d);
+                    }
+                }
+            }
+            ks.push(len.saturating_sub(1));
+            ks.push(len.saturating_sub(16));
+            ks.push(len.saturating_sub(17));
+            ks.retain(|&k| k > 0 && k < len);
+            ks.sort();
+            ks.dedup();
+            for k in ks {
+                jobs.push((format!("{}-n{}-first-{}-bytes-alone", name, n, k), args.clone(), pw, input.clone(), p.clone(), vec![k]));
+            }
+            if len > 1 {
+                jobs.push((format!("{}-n{}-byte-by-byte-200", name, n), args.clone(), pw, input.clone(), p.clone(), (1..len.min(200)).collect()));
+            }
+        }
+    }
+    let njobs = jobs.len();
+    jobs.par_iter().for_each(|(name, args, pw, input, plain, splits)| {
+        rep.eval(1);
+        rep.nontrivial(name.as_bytes());
+        let attempt = || -> Result<(), String> {
+            let sc = Scratch::new();
+            sc.write("kr.txt", kr.as_bytes());
+            let mut c = Cmd::new(args).env("KESTREL_PASSWORD", pw).stdin(input);
+            c.stdin_splits = splits.clone();
+            let out = proc::run(&c, &sc.0);
+            out.well_behaved()?;
+            if !out.ok() {
+                return Err(format!("fails although the same bytes delivered whole succeed: {}", out.summary()));
+            }
+            let got: Option<Vec<u8>> = match args[0] {
+                "encrypt" => r::read_key_file(&bob.sk, &out.stdout).ok().map(|k| k.parsed.plaintext),
+                "decrypt" => Some(out.stdout.clone()),
+                _ if args[1] == "encrypt" => {
+                    if out.stdout.len() >= 36 {
+                        r::read_pass_file_with_key(&r::pass_key(b"pw", out.stdout[4..36].try_into().unwrap()), &out.stdout).ok().map(|k| k.plaintext)
+                    } else {
+                        None
+                    }
+                }
+                _ => Some(out.stdout.clone()),
+            };
+            if got.as_deref() != Some(&plain[..]) {
+                return Err(format!("exit 0 but the result differs from the whole-file run ({} output bytes)", out.stdout.len()));
+            }
+            Ok(())
+        };
+        if attempt().is_err() {
+            if let Err(e) = attempt() {
+                rep.violation(&format!("C10/cli-partial-read-{}", name.split("-n").next().unwrap_or("")), json!({"kind":"cli-split","name":name}), format!("kestrel {} with its input on a stdin pipe, {}: {}", args.join(" "), name, e));
+            }
+        }
+    });
+    rep.extra("cli_partial_read_cases", json!(njobs));
 }
 
 fn cli_case(cmd: &Cmd, files: &[(String, Vec<u8>)]) -> Result<(), String> {
